@@ -223,6 +223,8 @@ def rule_body_text(ctx, file, s):
     s = sub("R-assert", r"assert_eq!\(([^,;]+), ([^;]+?)\);", r"runtime_assert(\1 == \2);", s)
     s = sub("R-split", r"(\w+)\.split\('(.)'\)\.collect::<Vec<_>>\(\)", r"str_split_char(\1, '\2')", s)
     s = sub("R-add", r"\((\w+KeySeparator::default\(\)) \+ (&?\w+)\)", r"(std::ops::Add::add(\1, \2))", s)
+    # R-constclosure: `|_| Enum::Variant` (argument ignored, unit-variant body) gets the ensures it trivially satisfies
+    s = sub("R-constclosure", r"\|_\|\s*(\w+)::(\w+)\s*\)", r"|_e| -> (__r: \1) ensures __r is \2 { \1::\2 })", s)
     s = sub("R-underscore", r"\|_\|", "|_e|", s)
     # R-localtype: a fn-local `type A = T;` is inlined (Verus rejects item statements); `A::f` -> `<T>::f`
     for m in list(re.finditer(r"\btype (\w+) = ([^;]+);", s)):
@@ -613,7 +615,9 @@ class FileEmitter:
                 self.out.add(indent + b + "\n\n", dict(meta_base, part="body"))
         ctx.fn_index.append({"file": self.rel, "impl": ik, "fn": it.name, "line": it.line, "external_body": bool(ext or self.stub),
                              "contract": bool(spec), "safety": spec.safety if spec else [],
-                             "labels": [l for l, _ in (spec.requires + spec.ensures)] if spec else []})
+                             "labels": [l for l, _ in (spec.requires + spec.ensures)] if spec else [],
+                             "ens_labels": [l for l, _ in spec.ensures] if spec else [],
+                             "ens_texts": [(l, t) for l, t in spec.ensures] if spec else []})
 
     def disp_spec(self, parent, body):
         """R-display: write!(f, "{}", self.F) -> DispSpec impl delegating to F"""
@@ -808,6 +812,9 @@ def build(include=None, stubset=(), spec_paths=None, shim_paths=None, out_path=N
     for t in specs.specdefs:
         out.add(t + "\n", {"file": "contracts", "part": "specs"})
     out.add("}\n}\n")
+    # canary (DESIGN 1.7): with every assumed axiom in scope, `false` must NOT be provable
+    out.add("pub mod rp_canary {\nuse vstd::prelude::*;\nuse crate::shim_prelude::*;\nverus!{\n" + BROADCAST_USE +
+            "proof fn rp_canary_must_fail() ensures false {}\n}\n}\n", {"file": "canary", "part": "canary"})
     out.add("fn main() {}\n")
     for k, fs in specs.fns.items():
         if not fs.used and inc(k[0]):
